@@ -1512,6 +1512,48 @@ def _ascaled(w, c):
     return Multi([w.bs.BitArray(a.data)] + out)
 
 
+DTYPE_NAMES = ['uint', 'int', 'uintbe', 'intbe', 'uintle', 'intle', 'float', 'floatle', 'bfloat', 'bfloatle', 'hex', 'oct',
+               'bin', 'bytes', 'bool', 'bits', 'pad', 'ue', 'se', 'uie', 'sie', 'p3binary', 'p4binary', 'e4m3mxfp',
+               'e5m2mxfp', 'e3m2mxfp', 'e2m3mxfp', 'e2m1mxfp', 'e8m0mxfp', 'mxint']      # = DtypeNameList in Codec.tla
+
+
+@op('dtypeinfo')
+def _dtypeinfo(w, c):
+    """the attributes of Dtype(name, n) (or of Dtype('<name><n>') for style 1)"""
+    name, n = c['sa'][0], N(c['ia'][0])
+    style = c['ia'][1] if len(c['ia']) > 1 else 0
+    d = w.bs.Dtype(name, n) if style == 0 or n is None else w.bs.Dtype(f'{name}{n}' if style == 1 else f'{name}:{n}')
+    rt = {int: 0, float: 1, str: 2, bytes: 3, bool: 4}.get(d.return_type, 5)
+    opt = lambda x: None if x is None else [9, int(x)]
+    items = [[9, DTYPE_NAMES.index(d.name) + 1], opt(d.length), opt(d.bitlength), [9, int(d.bits_per_item)],
+             [1, int(bool(d.is_signed))], [1, int(bool(d.variable_length))], [9, rt]]
+    return Multi([[0] if x is None else x for x in items], ['raw'] * 7)
+
+
+@op('aastype')
+def _aastype(w, c):
+    name, n = c['sa'][0], N(c['ia'][0])
+    style = c['ia'][1] if len(c['ia']) > 1 else 0
+    return T(w, c).astype(_dtype_arg(w, c, name, n, style))
+
+
+@op('afromfile')
+def _afromfile(w, c):
+    """a.fromfile(f, n) with f a real file or a BytesIO holding the bytes of xs[0]"""
+    data = w.make_lit('bytes', c['xs'][0]['v'])
+    n = N(c['ia'][0]) if c['ia'] else None
+    how = c['sa'][0] if c['sa'] else 'path'
+    if how == 'bytesio':
+        f = io.BytesIO(data)
+        return T(w, c).fromfile(f) if n is None else T(w, c).fromfile(f, n)
+    w._filecount = getattr(w, '_filecount', 0) + 1
+    fn = os.path.join(w.tmpdir, f'af{os.getpid()}_{w._filecount}.bin')
+    with open(fn, 'wb') as f:
+        f.write(data)
+    with open(fn, 'rb') as f:
+        return T(w, c).fromfile(f) if n is None else T(w, c).fromfile(f, n)
+
+
 @op('anewdata')
 def _anewdata(w, c):
     name, n = c['sa'][0], N(c['ia'][0])
